@@ -53,7 +53,8 @@ def build(table):
         ns = {}
         if not row["inherit"]:
             ns["aliases"] = set(row["own"])
-        classes.append(type("K%d" % (k + 1), (base,), ns))
+        # (names that sort in the REVERSE of the registration order: "registered last" is about time, not about names)
+        classes.append(type("K%02d" % (60 - k), (base,), ns))
     return classes
 
 
@@ -83,7 +84,8 @@ def query_all(table, aliases, history=None):
         ns = {}
         if not row["inherit"]:
             ns["aliases"] = set(row["own"])
-        classes.append(type("K%d" % (k + 1), (base,), ns))
+        # (names that sort in the REVERSE of the registration order: "registered last" is about time, not about names)
+        classes.append(type("K%02d" % (60 - k), (base,), ns))
         q = _queries(classes, aliases)
         if history is not None and k + 1 < len(table):
             history.append((k + 1, q))
@@ -229,6 +231,18 @@ def from_arg_table(run):
         run.violation({"kind": "from_arg_instance_not_returned_unchanged"})
     if type(f(W, "hann")) is not filters.HannWindow:
         run.violation({"kind": "from_arg_string_alias"})
+    # a string is the alias with default arguments: a NEW default-constructed object every time
+    g1 = f(W, "gamma")
+    g1.order = 9
+    g2 = f(W, "gamma")
+    g3 = f(W, {"name": "gamma"})
+    if g2 is g1 or g3 is g1 or g2.order != filters.GammaWindow().order or g3.order != filters.GammaWindow().order:
+        run.violation({"kind": "from_arg_string_alias", "what": "a second look-up returns the object of the first (or its state)"})
+    s1 = f(post.PostProcessor, "cmvn")
+    s1.accumulate(np.arange(12.0).reshape(4, 3))
+    s2 = f(post.PostProcessor, "cmvn")
+    if s2 is s1 or s2.have_stats:
+        run.violation({"kind": "from_arg_string_alias", "what": "a second 'cmvn' look-up carries the statistics accumulated on the first"})
     g = f(W, {"alias": "gamma", "order": 2})
     if type(g) is not filters.GammaWindow or g.order != 2:
         run.violation({"kind": "from_arg_mapping_alias_kwargs"})
